@@ -301,7 +301,7 @@ class Interp:
     def ev_Attribute(self, e, env):
         base = self.ev(e.value, env)
         self.event("attr", e, (base, e.attr), env)
-        if base.types is None:
+        if base.types is None or "?" in base.types:
             return TOP
         if e.attr == "value":
             out = None
@@ -395,6 +395,7 @@ class Interp:
     def ev_UnaryOp(self, e, env):
         v = self.ev(e.operand, env)
         if isinstance(e.op, ast.Not):
+            self.event("truth", e.operand, (v,), env)
             return BOOL
         if isinstance(e.op, ast.Invert) and v.types and v.types <= {"int", "bool"}:
             return INT
@@ -405,13 +406,25 @@ class Interp:
     def ev_BoolOp(self, e, env):
         out = None
         cur = dict(env)
+        unknown = False
         for i, v in enumerate(e.values):
-            out = join(out, self.ev(v, cur))
+            val = self.ev(v, cur)
+            if i + 1 < len(e.values):
+                self.event("truth", v, (val,), cur)
+            if val.types is None:
+                unknown = True
+            else:
+                out = join(out, val)
             if i + 1 < len(e.values):
                 cur = self.refine(v, isinstance(e.op, ast.And), cur)
                 if cur is None:
                     break
-        return out if out is not None else TOP
+        if out is None:
+            return TOP
+        if unknown:
+            # partial knowledge: some operand is unknown ("?"), the others contribute their types
+            return out.with_(types=out.types | {"?"}, flags=frozenset(), alias=frozenset())
+        return out
 
     def ev_Compare(self, e, env):
         l = self.ev(e.left, env)
@@ -420,7 +433,7 @@ class Interp:
         return BOOL
 
     def ev_IfExp(self, e, env):
-        self.ev(e.test, env)
+        self.event("truth", e.test, (self.ev(e.test, env),), env)
         et = self.refine(e.test, True, dict(env))
         ef = self.refine(e.test, False, dict(env))
         a = self.ev(e.body, et if et is not None else env)
@@ -732,7 +745,7 @@ class Interp:
                 env[h.name] = T("exception")
             return env
         if k == "test":
-            self.ev(a, env)
+            self.event("truth", a, (self.ev(a, env),), env)
             if label in ("true", "false"):
                 return self.refine(a, label == "true", env)
             return env
@@ -1219,6 +1232,17 @@ class Engine:
                 return BOOL
             if name == "type":
                 return TOP
+            return TOP
+        if "?" in recv.types:
+            # partially known receiver: only receiver-independent results are kept
+            if name in cfg.as_map:
+                return T(cfg.as_map[name])
+            if name in cfg.is_true:
+                return BOOL
+            if name == "evaluate":
+                return cfg.anyvalue(control=True)
+            if name == "execute":
+                return cfg.anyvalue()
             return TOP
         ts = recv.types
         # --- Args accessors
